@@ -274,6 +274,20 @@ Theorem C13_second_order_refines_as_linear : forall (M : Type) (lin drop : M -> 
 Proof. intros M lin drop m. split; reflexivity. Qed.
 Print Assumptions C13_second_order_refines_as_linear.
 
+(* utils.adaptive_theta (the marking helper): the selection read from the source is the model's; it is an index LIST (one-
+   dimensional whatever the number of hits, also for exactly one hit), strictly increasing, and consists exactly of the cells
+   whose estimate exceeds theta * max *)
+Theorem C13_adaptive_theta : forall est theta mx,
+  gen_theta_select est theta mx = theta_select est theta mx /\
+  (forall k, In k (theta_select est theta mx) <->
+             k < length est /\ (theta * match mx with Some v => v | None => qmax est end < nth k est 0%Q)%Q) /\
+  NoDup (theta_select est theta mx) /\
+  forall a b, a < b < length (theta_select est theta mx) -> nth a (theta_select est theta mx) 0 < nth b (theta_select est theta mx) 0.
+Proof.
+  intros est theta mx. split; [reflexivity|]. split; [intros k; apply theta_select_spec|]. apply theta_select_sorted.
+Qed.
+Print Assumptions C13_adaptive_theta.
+
 (* non-vacuity: two triangles sharing facet 2 (their slot-2 facet); marking cell 0 makes cell 0 red and the
    closure marks nothing else of cell 1 than the shared facet: cell 1 is green *)
 Example C13_instance :
